@@ -206,6 +206,8 @@ class Gen:
             t = self.rand_text()
             if rng.random() < 0.15:
                 t += rng.choice(['{}', '{', '}', '{0}', '{{x}}'])
+            if rng.random() < 0.12:
+                t = rng.choice(['mac', 'smac', 'dbl', 'nothing'])     # a quoted string that spells a macro or a routine is still that string
             if t in ('{', '[', '-'):
                 # grammar corner (not C19's): such a string is taken for the mark itself
                 t += ' '
